@@ -108,6 +108,29 @@ fn roll_replay(path: &[u8]) -> Result<(), String> {
     if w != r {
         return Err(format!("whole-slice update differs from byte-wise after {}", hex(path)));
     }
+    // iterator forms whose size hints are inexact (lower bound 0, upper bound an over-estimate)
+    let mut it1 = RollingHash::new();
+    it1.update_by_iter(path.iter().copied().filter(|_| true));
+    let doubled: Vec<(bool, u8)> = path.iter().flat_map(|&b| [(true, b), (false, b ^ 0x5a)]).collect();
+    let mut it2 = RollingHash::new();
+    it2.update_by_iter(doubled.iter().filter(|x| x.0).map(|x| x.1));
+    if it1 != r || it2 != r {
+        return Err(format!("update_by_iter with an inexact size hint differs from byte-wise after {}", hex(path)));
+    }
+    // split calls: a prefix by one form, the rest by another (state carried across bulk calls)
+    for cut in [1usize, 3, 7, 8] {
+        if cut < path.len() {
+            let mut s1 = RollingHash::new();
+            s1.update(&path[..cut]);
+            s1.update(&path[cut..]);
+            let mut s2 = RollingHash::new();
+            s2.update_by_iter(path[..cut].iter().copied());
+            s2 += &path[cut..];
+            if s1 != r || s2 != r {
+                return Err(format!("split bulk updates (cut {}) differ from byte-wise after {}", cut, hex(path)));
+            }
+        }
+    }
     Ok(())
 }
 
@@ -200,6 +223,14 @@ fn fnv_replay(path: &[u8]) -> Result<(), String> {
     w.update(path);
     if w.value() != h.value() {
         return Err(format!("whole-slice update differs from byte-wise after {}", hex(path)));
+    }
+    let mut it1 = PartialFNVHash::new();
+    it1.update_by_iter(path.iter().copied().filter(|_| true));
+    let doubled: Vec<(bool, u8)> = path.iter().flat_map(|&b| [(true, b), (false, b ^ 0x5a)]).collect();
+    let mut it2 = PartialFNVHash::new();
+    it2.update_by_iter(doubled.iter().filter(|x| x.0).map(|x| x.1));
+    if it1.value() != h.value() || it2.value() != h.value() {
+        return Err(format!("update_by_iter with an inexact size hint differs from byte-wise after {}", hex(path)));
     }
     Ok(())
 }
@@ -329,7 +360,7 @@ pub fn run(ctx: &Ctx) -> Report {
         }
         // cross-check explorer on the 3-byte sub-alphabet (closes at 7*3^7 = 15309)
         let small = RollModel { sigma: vec![0x00, 0x01, 0xff] };
-        let b = explore::bfs(&small, 1 << 22, 200);
+        let b = explore::bfs(&small, 1 << 22, 2000);
         if let Some((name, path)) = &b.violation {
             if sr.discoveries.is_empty() {
                 rep.violation(Violation {
